@@ -4,6 +4,18 @@ claimed / not_applicable partition is always consistent)."""
 import json
 
 CLAIMS = {
+ 'C19': dict(
+   text='Static decision of the failonerror contract: the except-Exception handler at each of the four sites '
+        '(transform_value, iterfieldmap, iterrowmap, iterrowmapmany) is extracted as a decision table and evaluated '
+        'exhaustively for the three policies False / True / inline; the try block must contain the user call and every '
+        'consumption of its possibly lazy result; the four view constructors resolve exactly None (and only None, for '
+        'every valuation of their other tests) to config.failonerror; the policy is consulted nowhere else; rowmapmany '
+        'yields inside the try. The handler runs per failing row, so the verdict covers every pattern of failing rows.',
+   ref='DESIGN.md §4 C19',
+   note="the policy domain is {False, True, 'inline'}; does not execute converters; streaming (exception surfaces at "
+        'the failing row, after earlier rows) is decided by C02 R2.2 for the same four iterators',
+   technique='finite decision-table extraction of the handlers and constructors (truth-table enumeration) + '
+             'try-scope / result-consumption check'),
  'C04': dict(
    text='Static decision of the ordering: Comparable.__lt__ and __eq__ are evaluated abstractly from the current source '
         'for every ordered pair of the 12 supported type classes with wrapped and unwrapped right operand (576 cells) and '
